@@ -415,6 +415,17 @@ def run(ctx: Ctx) -> int:
                     fn=fn,
                 )
     ctx.floor("C04.e-flag-calls", n_flag_calls, 5)
+    # every default config file that was found is a source: the loops that collect and fold them never stop early
+    n_dcf = 0
+    for ref in ("_core:ArgumentParser.get_defaults", "_core:ArgumentParser._get_default_config_files"):
+        fn_ = ctx.func(ref)
+        for lp in [l for l in walk_local(fn_) if isinstance(l, ast.For) and ("default_config_file" in ast.unparse(l.iter) or "pattern" in ast.unparse(l.target) or "default_config_files" in ast.unparse(l.iter))]:
+            n_dcf += 1
+            brk = [b for b in ast.walk(lp) if isinstance(b, ast.Break)] + [r for r in ast.walk(lp) if isinstance(r, ast.Return)]
+            ok = not brk
+            ctx.oblige("C04.a", ok, brk[0] if brk else lp, "the loop over the default config files visits every file" if ok else f"`{type(brk[0]).__name__.lower()}` inside the loop over the default config files: the files listed (or matched) after that point are silently ignored - an empty file in conf.d/ hides every later one", fn=fn_, construct="all default config files visited")
+    ctx.floor("C04.a-default-config-loops", n_dcf, 2)
+
     # the environment SOURCE is the mapping the caller gave; the process environment stands in only when none was
     # given (`is None`) - an empty mapping is a given source with no variables
     from .util import guard_atoms as _ga
